@@ -1,0 +1,88 @@
+//go:build verif
+
+// Contracts of the storage.MintDB interface for the govc verifier (/verif):
+// the abstract (ghost) model of the mint's tables. They are assumptions about
+// the implementation in mint/storage/sqlite (kept honest by a bounded
+// conformance harness, see /verif/DESIGN.md §5.1). Comment-only file.
+package storage
+
+//@ func (MintDB).SaveProofs(ps)
+//@   trusted
+//@   modifies db.spent, db.spentrow, db.faults
+//@   ensures db.faults >= old(db.faults)
+//@   ensures err == nil <==> (db.faults == old(db.faults) && (forall i :: 0 <= i && i < len(ps) ==> !old(db.spent)[Yof(ps[i].Secret)]) && (forall i, j :: 0 <= i && i < j && j < len(ps) ==> Yof(ps[i].Secret) != Yof(ps[j].Secret)))
+//@   ensures err != nil ==> db.spent == old(db.spent) && db.spentrow == old(db.spentrow)
+//@   ensures err == nil ==> (forall y Str :: db.spent[y] <==> (old(db.spent)[y] || exists i :: 0 <= i && i < len(ps) && Yof(ps[i].Secret) == y))
+//@   ensures err == nil ==> (forall y Str :: old(db.spent)[y] ==> db.spentrow[y] == old(db.spentrow)[y])
+//@   ensures err == nil ==> (forall i :: 0 <= i && i < len(ps) ==> db.spentrow[Yof(ps[i].Secret)] == rowOf(ps[i]))
+
+//@ func (MintDB).GetProofsUsed(Ys)
+//@   trusted
+//@   modifies db.faults
+//@   requires @nonempty [C06] len(Ys) >= 1
+//@   ensures db.faults >= old(db.faults)
+//@   ensures err == nil <==> db.faults == old(db.faults)
+//@   ensures !err.is(err, sql.ErrNoRows)
+//@   ensures err != nil ==> r0 == nil
+//@   ensures err == nil ==> (forall j :: 0 <= j && j < len(r0) ==> db.spent[r0[j].Y] && r0[j] == db.spentrow[r0[j].Y] && (exists i :: 0 <= i && i < len(Ys) && Ys[i] == r0[j].Y))
+//@   ensures err == nil ==> (forall i :: 0 <= i && i < len(Ys) && db.spent[Ys[i]] ==> (exists j :: 0 <= j && j < len(r0) && r0[j].Y == Ys[i]))
+
+//@ func (MintDB).AddPendingProofs(ps, quoteId)
+//@   trusted
+//@   modifies db.pending, db.pendrow, db.faults
+//@   ensures db.faults >= old(db.faults)
+//@   ensures err == nil <==> (db.faults == old(db.faults) && (forall i :: 0 <= i && i < len(ps) ==> !old(db.pending)[Yof(ps[i].Secret)]) && (forall i, j :: 0 <= i && i < j && j < len(ps) ==> Yof(ps[i].Secret) != Yof(ps[j].Secret)))
+//@   ensures err != nil ==> db.pending == old(db.pending) && db.pendrow == old(db.pendrow)
+//@   ensures err == nil ==> (forall y Str :: db.pending[y] <==> (old(db.pending)[y] || exists i :: 0 <= i && i < len(ps) && Yof(ps[i].Secret) == y))
+//@   ensures err == nil ==> (forall y Str :: old(db.pending)[y] ==> db.pendrow[y] == old(db.pendrow)[y])
+//@   ensures err == nil ==> (forall i :: 0 <= i && i < len(ps) ==> db.pendrow[Yof(ps[i].Secret)] == pendRowOf(ps[i], quoteId))
+
+//@ func (MintDB).GetPendingProofs(Ys)
+//@   trusted
+//@   modifies db.faults
+//@   requires @nonempty [C06] len(Ys) >= 1
+//@   ensures db.faults >= old(db.faults)
+//@   ensures err == nil <==> db.faults == old(db.faults)
+//@   ensures !err.is(err, sql.ErrNoRows)
+//@   ensures err != nil ==> r0 == nil
+//@   ensures err == nil ==> (forall j :: 0 <= j && j < len(r0) ==> db.pending[r0[j].Y] && r0[j] == db.pendrow[r0[j].Y] && (exists i :: 0 <= i && i < len(Ys) && Ys[i] == r0[j].Y))
+//@   ensures err == nil ==> (forall i :: 0 <= i && i < len(Ys) && db.pending[Ys[i]] ==> (exists j :: 0 <= j && j < len(r0) && r0[j].Y == Ys[i]))
+
+//@ func (MintDB).GetPendingProofsByQuote(quoteId)
+//@   trusted
+//@   modifies db.faults
+//@   ensures db.faults >= old(db.faults)
+//@   ensures err == nil <==> db.faults == old(db.faults)
+//@   ensures err != nil ==> r0 == nil
+//@   ensures err == nil ==> (forall j :: 0 <= j && j < len(r0) ==> db.pending[r0[j].Y] && db.pendrow[r0[j].Y].MeltQuoteId == quoteId && r0[j].Y == db.pendrow[r0[j].Y].Y && r0[j].Amount == db.pendrow[r0[j].Y].Amount && r0[j].Id == db.pendrow[r0[j].Y].Id && r0[j].Secret == db.pendrow[r0[j].Y].Secret && r0[j].C == db.pendrow[r0[j].Y].C && r0[j].Witness == db.pendrow[r0[j].Y].Witness)
+//@   ensures err == nil ==> (forall y Str :: db.pending[y] && db.pendrow[y].MeltQuoteId == quoteId ==> (exists j :: 0 <= j && j < len(r0) && r0[j].Y == y))
+//@   ensures err == nil ==> (forall i, j :: 0 <= i && i < j && j < len(r0) ==> r0[i].Y != r0[j].Y)
+
+//@ func (MintDB).RemovePendingProofs(Ys)
+//@   trusted
+//@   modifies db.pending, db.faults
+//@   ensures db.faults >= old(db.faults)
+//@   ensures err == nil <==> db.faults == old(db.faults)
+//@   ensures err != nil ==> db.pending == old(db.pending)
+//@   ensures err == nil ==> (forall y Str :: db.pending[y] <==> (old(db.pending)[y] && !(exists i :: 0 <= i && i < len(Ys) && Ys[i] == y)))
+
+//@ func (MintDB).GetBlindSignatures(B_s)
+//@   trusted
+//@   modifies db.faults
+//@   requires @nonempty [C06] len(B_s) >= 1
+//@   ensures db.faults >= old(db.faults)
+//@   ensures err == nil <==> db.faults == old(db.faults)
+//@   ensures err != nil ==> r0 == nil
+//@   ensures err == nil ==> (len(r0) == 0 <==> (forall i :: 0 <= i && i < len(B_s) ==> !db.sig[B_s[i]]))
+
+//@ func (MintDB).SaveBlindSignatures(B_s, blindSignatures)
+//@   trusted
+//@   modifies db.sig, db.sigrow, db.faults
+//@   requires @lens [C06] len(B_s) >= len(blindSignatures)
+//@   requires @dleq [C06] forall i :: 0 <= i && i < len(blindSignatures) ==> blindSignatures[i].DLEQ != nil
+//@   ensures db.faults >= old(db.faults)
+//@   ensures err == nil <==> (db.faults == old(db.faults) && (forall i :: 0 <= i && i < len(blindSignatures) ==> !old(db.sig)[B_s[i]]) && (forall i, j :: 0 <= i && i < j && j < len(blindSignatures) ==> B_s[i] != B_s[j]))
+//@   ensures err != nil ==> db.sig == old(db.sig) && db.sigrow == old(db.sigrow)
+//@   ensures err == nil ==> (forall b Str :: db.sig[b] <==> (old(db.sig)[b] || exists i :: 0 <= i && i < len(blindSignatures) && B_s[i] == b))
+//@   ensures err == nil ==> (forall b Str :: old(db.sig)[b] ==> db.sigrow[b] == old(db.sigrow)[b])
+//@   ensures err == nil ==> (forall i :: 0 <= i && i < len(blindSignatures) ==> db.sigrow[B_s[i]] == mk.SigRow(blindSignatures[i].Amount, blindSignatures[i].C_, blindSignatures[i].Id, blindSignatures[i].DLEQ.E, blindSignatures[i].DLEQ.S))
